@@ -1,6 +1,7 @@
 package db
 
 import (
+	"Havoc/pkg/verifhook"
 	"errors"
 	"log"
 )
@@ -39,6 +40,8 @@ func (db *DB) ListenerAdd(Name, Protocol, Config string) error {
 	}
 
 	stmt.Close()
+
+	verifhook.Point("db.exec.ListenerAdd")
 
 	return nil
 }
@@ -163,6 +166,8 @@ func (db *DB) ListenerRemove(Name string) error {
 	if err != nil {
 		return err
 	}
+
+	verifhook.Point("db.exec.ListenerRemove")
 
 	return nil
 }
